@@ -74,6 +74,10 @@ func c14Export(ctx context.Context, payloadOK bool) (partial bool, rejected int6
 	}
 	r := c14Script[c14Calls]
 	c14Calls++
+	if c14Hang {
+		<-ctx.Done()
+		return false, 0, "", status.FromContextError(ctx.Err()).Err()
+	}
 	if r.cancel {
 		c14Cancelled = true
 		c14CancelCtx()
@@ -173,4 +177,43 @@ func HarnessC14GRPCUploadDisabled() {
 	vndReach("disabled")
 	vndAssert(c14Calls == 1, "disabled-retry-makes-exactly-one-attempt")
 	vndAssert(err == c14Script[0].err, "disabled-retry-returns-the-outcome")
+}
+
+// C14.upload.stop (gRPC): a service that answers only when the call's context
+// ends (as a real channel does when it is closed or the call is cancelled); the
+// export ends with an error once the caller's context is cancelled or, where
+// the client has a stop function that cancels in-flight exports, once the
+// client is stopped with an expired context, and never blocks beyond that
+var c14Hang bool
+
+func HarnessC14GRPCHang() {
+	c14Script = make([]c14Resp, 3)
+	for i := range c14Script {
+		c14Script[i] = c14Resp{kind: 2, code: codes.Canceled} // what a cut call reports (retryable)
+	}
+	c14Calls, c14PayloadOK, c14Handled, c14Cancelled = 0, true, nil, false
+	c14Hang = true
+	defer func() { c14Hang = false }()
+	cfg := c14RetryConfig(vndChoice(2) == 1)
+	cfg.InitialInterval, cfg.MaxInterval = time.Millisecond, 2*time.Millisecond
+	upload, stop := c14NewClient(cfg)
+	ctx, cancel := context.WithCancel(context.Background())
+	c14CancelCtx = cancel
+	byStop := c14HasStop && vndChoice(2) == 1
+	done := make(chan struct{})
+	go func() {
+		if byStop {
+			sctx, scancel := context.WithCancel(context.Background())
+			scancel() // the shutdown has run out of time: in-flight exports are cut
+			stop(sctx)
+		} else {
+			cancel()
+		}
+		close(done)
+	}()
+	err := upload(ctx)
+	<-done
+	cancel()
+	vndReach("returned")
+	vndAssert(err != nil, "export-cut-short-reports-an-error")
 }
